@@ -5,7 +5,7 @@ import LexVerif.Model.Bellerophon
 `binary`, `slow_binary`, `parse_u64_digits` (lexical-parse-float/src/binary.rs), `calculate_power2`,
 `calculate_shift`, `log2` (shared.rs) — the **current** code, including the fixes 220c4cc (saturating
 `calculate_power2`), ead3b71 (zero mantissa), 8f70c74 (`slow_binary` stops after `u64_step` digits),
-0628223 (values in (1/2, 1) of the least denormal round up).
+0628223 (values in (1/2, 1) of the least denormal round up), 6cdda4d (infinity before the invalid marker).
 
 Tie: **R** — float constants, `u64_step` (`Gen.SmallPowers`); **C** — ops `bin`, `sbin`.
 -/
@@ -16,8 +16,13 @@ open LexVerif.Spec LexVerif.Proof.Tables LexVerif.Model LexVerif.Model.Belleroph
 def log2Radix (r : Nat) : Int :=
   if r = 2 then 1 else if r = 4 then 2 else if r = 8 then 3 else if r = 16 then 4 else if r = 32 then 5 else 1
 
-/-- `const LIMIT: i64 = (i32::MAX / 2) as i64` -/
-def litPower2Limit : Int := 1073741823
+/-- `const LIMIT: i64 = (i32::MAX / 2) as i64`: the divisor is the only literal of `calculate_power2` -/
+def litPower2Div : Nat := 2
+def litPower2Limit : Int := ((2 ^ 31 - 1) / litPower2Div : Nat)
+/-- `-power2 + 1 > 64` in `binary` (zero cut-off) -/
+def litZeroCut : Int := 64
+/-- `shift == 64` in `binary` -/
+def litShiftFull : Nat := 64
 
 /-- `i64::saturating_mul` -/
 def satMulI64 (a b : Int) : Int :=
@@ -44,13 +49,16 @@ def binary (F : FTy) (expBase : Nat) (n : Num) (lossy : Bool) : AlgoRes :=
     let ctlz := clz64 n.mantissa
     let mantissa := shl64m n.mantissa ctlz
     let power2 := calculatePower2 F expBase n.exponent ctlz
-    if -power2 + 1 > 64 then .ok fpZero
+    if -power2 + 1 > litZeroCut then .ok fpZero
+    -- /repo commit 6cdda4d: at or beyond the exponent of infinity whatever the rounding does
+    -- (the invalid marker below is only negative for exponents below 2^15)
+    else if power2 ≥ F.C.infinitePower then .ok { mant := 0, exp := F.C.infinitePower }
     else
       let shift := (calculateShift F power2).toNat
       -- `last_bit = if shift == 64 { 0 } else { 1 << shift }`, `truncated = last_bit.wrapping_sub(1)`
       let halfway := lowerNHalfway shift
-      let isEven := if shift = 64 then true else decide (mantissa / 2 ^ (shift % 64) % 2 = 0)
-      let truncatedBits := if shift = 64 then mantissa else mantissa % 2 ^ (shift % 64)
+      let isEven := if shift = litShiftFull then true else decide (mantissa / 2 ^ (shift % 64) % 2 = 0)
+      let truncatedBits := if shift = litShiftFull then mantissa else mantissa % 2 ^ (shift % 64)
       let isHalfway := decide (truncatedBits = halfway)
       if !lossy && isEven && isHalfway && n.manyDigits then
         .ok { mant := mantissa, exp := power2 + invalidFp }
@@ -59,6 +67,23 @@ def binary (F : FTy) (expBase : Nat) (n : Num) (lossy : Bool) : AlgoRes :=
         let roundUp := isAbove || (!isEven && isHalfway)
         .ok (round F { mant := mantissa, exp := power2 } fun f s =>
           roundNearestTieEven f s fun _ _ _ => roundUp)
+
+/-! ## literals in source order (S tie: `Props/LiteralsModel.lean` equates them with `Gen.Literals`) -/
+
+/-- `binary`: `2 | 4 | 8 | 16 | 32` (debug_assert), `fp_zero`, `mantissa == 0`, `-power2 + 1 > 64`, `mant: 0` of the
+infinity exit, `shift == 64`, `true => 0`, `1u64 << shift`, `wrapping_sub(1)`, `mantissa & last_bit == 0` -/
+def binaryLiterals : List Nat :=
+  [2, 4, 8, 16, 32, 0, 0, 0, 1, litZeroCut.toNat, 0, litShiftFull, 0, 1, 1, 0]
+/-- `calculate_power2` -/
+def calculatePower2Literals : List Nat := [litPower2Div]
+/-- `calculate_shift`: `64 - F::MANTISSA_SIZE - 1`, `-power2 + 1` -/
+def calculateShiftLiterals : List Nat := [64, 1, 1]
+/-- `log2`: the match arms, read off the model function -/
+def log2Literals : List Nat :=
+  [2, (log2Radix 2).toNat, 4, (log2Radix 4).toNat, 8, (log2Radix 8).toNat, 16, (log2Radix 16).toNat,
+   32, (log2Radix 32).toNat, (log2Radix 0).toNat]
+/-- `slow_binary`: the radices of the debug_assert, `mantissa = 0_u64`, `mantissa == 0` -/
+def slowBinaryLiterals : List Nat := [2, 4, 8, 16, 32, 0, 0]
 
 /-! ## slow_binary -/
 
